@@ -109,6 +109,7 @@ Variable yl : str -> option val.
    7 = enum-member-null                 : an Enum member whose name is `null`
    8 = default-not-normalised           : the leaf holds its declared default, unvalidated, and that value is not what
        the parser makes of its own serialisation (int default under Union[float,int], 'NULL' under Optional[str])
+   (9, 10: repaired in /repo 2b39397; with fx_subclass_trim = true trim never answers TErr, nor TDel on differing dict_kwargs)
    9 = skip-default-none-default-crash  : skip_default (nulls kept) with a subclass spec over the declared default None:
        `default.get("class_path")` raises AttributeError
    10 = skip-default-drops-dict-kwargs  : skip_default deletes a subclass spec whose class and init_args are the default's
@@ -171,7 +172,12 @@ Definition leaf_class (vr : variant) (lw : leaf * val) : N :=
 Fixpoint case_class (vr : variant) (lvs : list (leaf * val)) : N :=
   match lvs with
   | [] => 0%N
-  | lw :: r => let k := leaf_class vr lw in if N.eqb k 0 then case_class vr r else k
+  | lw :: r =>
+      (* the first finding class among the leaves; class 11 (not a finding) only if no leaf has one *)
+      let k := leaf_class vr lw in
+      if N.eqb k 0 then case_class vr r
+      else if N.eqb k 11 then (let k' := case_class vr r in if N.eqb k' 0 then k else k')
+      else k
   end.
 
 End Guard.
